@@ -121,6 +121,11 @@ pub struct Schedule {
     pub sleep_pct: u32,
     #[serde(default)]
     pub sleep_ms: u64,
+    /// Probability (percent) of opening several waiting gates at once at a
+    /// quiescent point (user code of several scenarios completing in the same
+    /// executor turn).
+    #[serde(default)]
+    pub multi_pct: u32,
 }
 
 #[derive(Clone, Debug, Deserialize, Serialize)]
@@ -871,14 +876,30 @@ fn drive(
                 }
             }
         };
-        rec("open", json!({"gate":key}));
-        let w = with_ctx(|c| {
-            c.waiting.retain(|k| *k != key);
-            c.opened.insert(key.clone());
-            c.wakers.remove(&key)
-        });
-        if let Some(w) = w {
-            w.wake();
+        let mut keys = vec![key];
+        if waiting.len() > 1
+            && case.schedule.multi_pct > 0
+            && rng.random_range(0..100) < case.schedule.multi_pct
+        {
+            for k in &waiting {
+                if !keys.contains(k)
+                    && !k.starts_with("parser:")
+                    && rng.random_range(0..100) < 70
+                {
+                    keys.push(k.clone());
+                }
+            }
+        }
+        for key in keys {
+            rec("open", json!({"gate":key}));
+            let w = with_ctx(|c| {
+                c.waiting.retain(|k| *k != key);
+                c.opened.insert(key.clone());
+                c.wakers.remove(&key)
+            });
+            if let Some(w) = w {
+                w.wake();
+            }
         }
         idle_polls = 0;
         if Instant::now() > deadline {
